@@ -1,6 +1,7 @@
 import FluteModel.Recv
 import FluteModel.Lemmas.RecvTotal
 import FluteModel.Lemmas.RecvToy
+import FluteModel.Lemmas.RecvGrowth
 /-
   C04 - untrusted input, SESSION-LEVEL receiver (`Receiver::push_data` / `push` / `cleanup`):
   no parsed packet, no XML-parser answer, no history can make a receiver call panic; a datagram the
@@ -126,6 +127,18 @@ theorem later_valid_session_delivered_partial (I : ObjIface σ) (s : State σ) (
 theorem gc_error_loop_terminates (I : ObjIface σ) (s : State σ) :
     (gcObjectError I s.errors.length s).1.errors.length ≤ s.cfg.maxObjectsError :=
   (gcObjectError_bound I s.errors.length s (by omega)).1
+
+/-- **registries_grow_by_one** (session-level part of `alloc_bounded`).  Whatever a datagram
+    contains, one `push_data` adds at most ONE entry to `objects` and at most ONE to `fdt_receivers`
+    (`fdt_current` ≤ 10 and `objects_error` ≤ max are C17); `cleanup` adds none.  No packet can
+    blow up the session-level registries; what an entry may allocate is the object-level bound
+    (`Flute.Props.C04.Obj`, known finding D31 for the first source block). -/
+theorem registries_grow_by_one (I : ObjIface σ) (s s' : State σ) (op : Op) (r : Res) (evs : List Ev)
+    (h : step I s op = .ok (s', r, evs)) :
+    s'.objects.length ≤ s.objects.length + 1 ∧ s'.fdtReceivers.length ≤ s.fdtReceivers.length + 1 ∧
+    (∀ now stale, op = .cleanup now stale →
+      s'.objects.length ≤ s.objects.length ∧ s'.fdtReceivers.length ≤ s.fdtReceivers.length) :=
+  step_growth I s s' op r evs h
 
 /-! ### non-vacuity, and why the clock hypothesis is there -/
 
